@@ -85,7 +85,8 @@ Step(kind, img, off, end) ==
               ELSE IF t = 0 THEN (IF l < 10 THEN Ent(FALSE, t, l, <<>>)
                                   ELSE LET n == R16(img, off + 6)          \* string length including the NUL
                                            need == 8 + n + ((8 + n) % 2) IN
-                                       Ent(n >= 1 /\ l = need /\ R8(img, off + 8 + n - 1) = 0 /\ NoNul(img, off + 8, n - 1)
+                                       \* (the string is the caller's: only its declared length, the terminator and the padding are judged)
+                                       Ent(n >= 1 /\ l = need /\ R8(img, off + 8 + n - 1) = 0
                                            /\ (need > 8 + n => R8(img, off + 8 + n) = 0), t, l, <<n>>))
               ELSE IF t = 1 THEN Ent(l = 10, t, l, <<>>)
               ELSE IF t = 2 THEN Ent(l = 8, t, l, <<>>)
@@ -105,8 +106,7 @@ Step(kind, img, off, end) ==
               ELSE IF t = 2 THEN (IF l < 13 THEN Ent(FALSE, t, l, <<>>)
                                   ELSE LET mo == R16(img, off + 8) m == R16(img, off + 10) IN
                                        IF mo < 13 \/ mo > l THEN Ent(FALSE, t, l, <<m>>)
-                                       ELSE Ent(l = mo + 20 * m /\ R8(img, off + mo - 1) = 0 /\ NoNul(img, off + 12, mo - 13),
-                                                t, l, <<m, mo - 13>>))
+                                       ELSE Ent(l = mo + 20 * m /\ R8(img, off + mo - 1) = 0, t, l, <<m, mo - 13>>))
               ELSE Ent(FALSE, t, l, <<>>)
     [] kind = "VIOT" ->
          IF off + 4 > end THEN Bad
